@@ -187,7 +187,7 @@ func caseSplit(o *Obligation, opts SolveOpts, timeoutS int, maxConds int) bool {
 	debug := os.Getenv("HVC_SPLITDEBUG") != ""
 	if debug {
 		for _, c := range conds {
-			fmt.Fprintf(os.Stderr, "casesplit %s: cond %s\n", o.Name, c)
+			fmt.Fprintf(os.Stderr, "casesplit %s: cond #%d (%s, %d args)\n", o.Name, c.id, c.Op, len(c.Args))
 		}
 	}
 	for i := 0; i < n; i++ {
